@@ -97,10 +97,12 @@ def execute(job):
     dirs = {n[:i] for n in init for i, ch in enumerate(n) if ch == "/"}          # paths that are directories on the hub
     program = job["program"]
     n = max(program)
-    r = hc.HubRun(CFG["copia"], CFG["shim"], root, n, d, CONTENTS)
+    # (a program may declare the EMPTY content a legitimate version: everywhere else an empty live file counts as torn)
+    r = hc.HubRun(CFG["copia"], CFG["shim"], root, n, d, dict(CONTENTS, c0=b"") if job.get("allow_empty") else CONTENTS)
     r.hashes = CFG["hashes"]
     r.track_lock = bool(job.get("track_lock"))
     r.lock_open_visible = job.get("policy") in ("lock_stress", "lock_identity")
+    r.reads_visible = bool(job.get("reads_visible"))
     ops = {}
     for sid in range(1, n + 1):
         r.queue_request(sid, {"kind": "hello"})
